@@ -966,6 +966,10 @@ func (fv *FV) applyContract(e *Env, x *ast.CallExpr, u *FuncUnit, recv *Value, a
 	for _, cl := range c.Stable {
 		fv.assume(e, fv.specTermA(e, cl, &specCtx{old: pre, bind: bind, results: results, preAlloc: pre.alloc}))
 	}
+	for _, cl := range c.EnsuresTrusted {
+		fv.assume(e, fv.specTermA(e, cl, &specCtx{old: pre, bind: bind, results: results, preAlloc: pre.alloc}))
+		fv.trustedUsed["assumed postcondition (ensures-trusted, not checked against the body) of "+u.Name()+": "+cl.Text] = true
+	}
 	for _, cl := range c.Defines {
 		t := fv.specTermA(e, cl, &specCtx{old: pre, bind: bind, results: results, preAlloc: pre.alloc})
 		fv.assume(e, t)
